@@ -139,14 +139,14 @@ func (t1 *Tasks) Merge(t2 *Tasks, include *Include, includedTaskfileVars *Vars) 
 			// Add namespaces to task dependencies
 			for _, dep := range task.Deps {
 				if dep != nil && dep.Task != "" {
-					dep.Task = taskNameWithNamespace(dep.Task, include.Namespace)
+					dep.Task = taskRefWithNamespace(dep.Task, include.Namespace)
 				}
 			}
 
 			// Add namespaces to task commands
 			for _, cmd := range task.Cmds {
 				if cmd != nil && cmd.Task != "" {
-					cmd.Task = taskNameWithNamespace(cmd.Task, include.Namespace)
+					cmd.Task = taskRefWithNamespace(cmd.Task, include.Namespace)
 				}
 			}
 
@@ -241,6 +241,36 @@ func (t *Tasks) UnmarshalYAML(node *yaml.Node) error {
 	}
 
 	return errors.NewTaskfileDecodeError(nil, node).WithTypeMessage("tasks")
+}
+
+// taskRefWithNamespace adds the namespace to a reference to another task
+// (deps, task commands). A reference to a task of the root Taskfile (":name")
+// is left as it is, so that it survives any number of merges (nested or
+// flattened includes); ResolveRootRefs strips the marker once everything has
+// been merged into the root Taskfile.
+func taskRefWithNamespace(taskName string, namespace string) string {
+	if strings.HasPrefix(taskName, NamespaceSeparator) {
+		return taskName
+	}
+	return taskNameWithNamespace(taskName, namespace)
+}
+
+// ResolveRootRefs turns references to tasks of the root Taskfile (":name")
+// into plain task names. It is called on the root Taskfile after all included
+// Taskfiles have been merged into it.
+func (tasks *Tasks) ResolveRootRefs() {
+	for task := range tasks.Values(nil) {
+		for _, dep := range task.Deps {
+			if dep != nil {
+				dep.Task = strings.TrimPrefix(dep.Task, NamespaceSeparator)
+			}
+		}
+		for _, cmd := range task.Cmds {
+			if cmd != nil {
+				cmd.Task = strings.TrimPrefix(cmd.Task, NamespaceSeparator)
+			}
+		}
+	}
 }
 
 func taskNameWithNamespace(taskName string, namespace string) string {
